@@ -22,6 +22,10 @@ import (
 // block for ever, the event is delivered once (unchanged), the failure is reported once.
 type finst struct {
 	writer string
+	// panics: the upcaster panics instead of returning an error. The panic may reach the
+	// caller of the replay (who recovers it here); the registry stays usable: the writer
+	// returns, and afterwards the upcasters can be cleared, registered again and applied
+	panics bool
 	rec    h.Rec
 	status string
 }
@@ -32,9 +36,17 @@ func (fi *finst) Body() {
 	bus := eventbus.New(eventbus.WithStore(ms), eventbus.WithUpcastErrorHandler(func(t string, d json.RawMessage, err error) { fi.rec.Add("err", 0, 0, t) }))
 	eventbus.RegisterUpcastFunc(bus, "fa", "fb", func(d json.RawMessage) (json.RawMessage, string, error) {
 		vrt.Point()
+		if fi.panics {
+			panic("the upcaster panics")
+		}
 		return nil, "", fmt.Errorf("cannot upcast")
 	})
 	vrt.Go(func() {
+		defer func() {
+			if r := recover(); r != nil {
+				fi.rec.Add("replay-panicked", 0, 0, "")
+			}
+		}()
 		bus.ReplayWithUpcast(context.Background(), eventbus.OffsetOldest, func(se *eventbus.StoredEvent) error {
 			fi.rec.Add("cb", 0, 0, se.Type+" "+string(se.Data))
 			return nil
@@ -55,6 +67,16 @@ func (fi *finst) Body() {
 		fi.rec.Add("writer-done", 0, 0, "")
 	})
 	vrt.Join()
+	if fi.panics {
+		bus.ClearUpcasts()
+		if err := eventbus.RegisterUpcastFunc(bus, "fa", "fb", func(d json.RawMessage) (json.RawMessage, string, error) { return d, "fb", nil }); err != nil {
+			fi.rec.Add("after-register-error", 0, 0, err.Error())
+		}
+		bus.ReplayWithUpcast(context.Background(), eventbus.OffsetOldest, func(se *eventbus.StoredEvent) error {
+			fi.rec.Add("after-cb", 0, 0, se.Type)
+			return nil
+		})
+	}
 }
 
 func (fi *finst) Trace() string   { return fi.rec.String() }
@@ -63,8 +85,26 @@ func (fi *finst) Outcome() string { return fi.status + " " + fi.rec.String() }
 func (fi *finst) Check(res *vrt.Result) []vrt.Violation {
 	fi.status = res.Status.String()
 	name := "a failing upcaster in a replay that races " + fi.writer
+	if fi.panics {
+		name = "a panicking upcaster in a replay that races " + fi.writer
+	}
 	vs := vrt.StatusViolations(name, res)
 	if res.Status != vrt.StatusOK {
+		return vs
+	}
+	if fi.panics {
+		after := ""
+		for _, e := range fi.rec.Events() {
+			if e.K == "after-cb" {
+				after += e.S + ";"
+			}
+			if e.K == "after-register-error" {
+				vs = append(vs, vrt.Violation{Kind: "registry-unusable", Sig: name + ": a valid registration is refused afterwards", Detail: fi.rec.String()})
+			}
+		}
+		if after != "fb;" {
+			vs = append(vs, vrt.Violation{Kind: "registry-unusable", Sig: name + ": after clearing and registering a working upcaster the replay does not deliver the event upcast", Detail: fi.rec.String()})
+		}
 		return vs
 	}
 	ncb, nerr := 0, 0
@@ -93,6 +133,7 @@ func failingScenarios() []vrt.Scenario {
 	for _, w := range []string{"register", "cleartype", "clear", "sethandler"} {
 		w := w
 		l = append(l, vrt.Scenario{Name: "failing-upcaster-vs-" + w, New: func() vrt.Instance { return &finst{writer: w} }})
+		l = append(l, vrt.Scenario{Name: "panicking-upcaster-vs-" + w, New: func() vrt.Instance { return &finst{writer: w, panics: true} }})
 	}
 	return l
 }
